@@ -90,6 +90,14 @@ def write_evidence(prop, mod, args, parts, violations, known_hits,
         for s in p['samples'][:2]:
             samples.append({'part': p['name'], 'case': s})
     exh = [p['exhaustive'] for p in parts if p['exhaustive'] is not None]
+    # cases in which an operation was kept out of a known-finding zone by
+    # construction are labelled 'excluded:<zone>' by the engines
+    known_excluded = dict(known_excluded)
+    for p in parts:
+        for lb, n in p['labels'].items():
+            if lb.startswith('excluded:'):
+                k = 'cases_with_' + lb[len('excluded:'):]
+                known_excluded[k] = known_excluded.get(k, 0) + n
     coverage = {
         'evaluations': evaluations,
         'distinct_nontrivial': distinct,
